@@ -32,6 +32,45 @@ def distance_state(rng, h, w):
     return {'grid': grid, 'pos': list(pos), 'ori': rng.choice(steps.ORIS), 'item': rng.choice(steps.HELD[:2])}
 
 
+def maze_state(rng, h, w):
+    """a walled serpentine corridor (shortest paths far longer than height + width), optionally transposed"""
+    grid = [[O('Wall') for _ in range(w)] for _ in range(h)]
+    transposed = rng.random() < 0.5
+    H, W = (w, h) if transposed else (h, w)
+
+    def put(y, x, o):
+        if transposed:
+            grid[x][y] = o
+        else:
+            grid[y][x] = o
+
+    free = []
+    for y in range(1, H - 1):
+        if y % 2 == 1:
+            for x in range(1, W - 1):
+                put(y, x, steps.FLOOR)
+                free.append((y, x))
+        else:
+            x = W - 2 if (y // 2) % 2 == 1 else 1
+            put(y, x, steps.FLOOR)
+            free.append((y, x))
+    if rng.random() < 0.3:      # one shortcut somewhere
+        y = rng.randrange(2, max(3, H - 2), 2) if H > 4 else 1
+        put(min(y, H - 2), rng.randrange(1, W - 1), steps.FLOOR)
+    cells = list(free)
+    rng.shuffle(cells)
+    special = [O('Exit'), O('Key', 0, 'RED'), O('Beacon', 0, rng.choice(['RED', 'BLUE']))]
+    ends = [free[0], free[-1]]
+    rng.shuffle(ends)
+    spots = [ends[0]] + [c for c in cells if c not in ends][:2] if rng.random() < 0.7 else cells[:3]
+    for (y, x), o in zip(spots, special):
+        put(y, x, o)
+    pos = rng.choice(free[len(free) // 2:] if spots[0] == free[0] else free[:len(free) // 2 + 1])
+    if transposed:
+        pos = (pos[1], pos[0])
+    return {'grid': grid, 'pos': list(pos), 'ori': rng.choice(steps.ORIS), 'item': steps.HELD[0]}
+
+
 def perturb(rng, s):
     """an arbitrary next state: agent elsewhere, possibly a door toggled / key picked"""
     s = json.loads(json.dumps(s))
@@ -101,6 +140,13 @@ def run(ctx, replay=None):
         for a in (rng.sample(steps.ACTIONS, 2) if ctx.quick else steps.ACTIONS):
             nexts = [perturb(rng, st) for _ in range(2)]
             jobs.append(dict(rec_id=rid, st_json=st, action=a, nexts_json=nexts, dyn_comps=steps.COMPOSITIONS['all'], dyn_seeds=(0,)))
+            rid += 1
+    # (d) mazes: shortest paths much longer than height + width, agent far from the target
+    for _ in range(60 if ctx.quick else 600):
+        h, w = rng.choice([(7, 7), (9, 9), (7, 10), (11, 8)])
+        st = maze_state(rng, h, w)
+        for a in rng.sample(steps.ACTIONS[:4], 2) + (['MOVE_FORWARD'] if ctx.quick else steps.ACTIONS[:4]):
+            jobs.append(dict(rec_id=rid, st_json=st, action=a, nexts_json=[perturb(rng, st)], dyn_comps=steps.COMPOSITIONS['all'], dyn_seeds=(0,)))
             rid += 1
     paths, counts = rewards.run_jobs(os.path.join(ctx.work, 'rew'), jobs, lists)
     bad, tot = rewards.validate(paths)
